@@ -314,6 +314,14 @@ impl PhysicalOperator for SpillableHashJoinExec {
                         .first()
                         .map(|b| b.schema())
                         .unwrap_or_else(|| build_side.schema());
+                    // A build side that produced NO batch at all (an empty
+                    // Parquet table) still has columns: outer joins NULL-extend
+                    // probe rows with them. Hand the join one empty batch, as
+                    // an empty in-memory table does.
+                    let mut build_batches = build_batches;
+                    if build_batches.is_empty() {
+                        build_batches.push(RecordBatch::new_empty(build_schema.clone()));
+                    }
                     let build_mem = Arc::new(crate::physical::operators::MemoryTableExec::new(
                         "join_build",
                         build_schema,
